@@ -2,6 +2,7 @@ package main
 
 import (
 	"fmt"
+	"go/constant"
 	"go/types"
 	"regexp"
 	"strings"
@@ -145,11 +146,11 @@ func c15DoLint(c *Ctx, r *Report) {
 			switch {
 			case s == inform:
 				return k.inform, true
-			case s == "cmd/zlint.prettyprint":
+			case s == cliFlagPath(c, "pretty"):
 				return k.pretty, true
-			case s == "cmd/zlint.summary":
+			case s == cliFlagPath(c, "summary"):
 				return k.summary, true
-			case s == "cmd/zlint.longSummary":
+			case s == cliFlagPath(c, "longSummary"):
 				return k.long, true
 			case s == pemDec:
 				if k.pemNil {
@@ -373,7 +374,7 @@ func c15SetLints(c *Ctx, r *Report) {
 		oracle := func(t *T) (interface{}, bool) {
 			s := t.String()
 			for i, f := range flags {
-				if s == "cmd/zlint."+f {
+				if s == cliFlagPath(c, f) {
 					if k.set[i] {
 						return "x", true
 					}
@@ -435,7 +436,7 @@ func c15SetLints(c *Ctx, r *Report) {
 		for i := range o.Trace {
 			ev := o.Trace[i]
 			calls[ev.Name] = append(calls[ev.Name], ev)
-			if ev.Name == "invoke:SetConfiguration" && len(ev.Args) == 2 && strings.HasPrefix(ev.Args[0].String(), "lint.GlobalRegistry") && ev.Args[1].String() == "extract:0(lint.NewConfigFromFile(cmd/zlint.config))" {
+			if ev.Name == "invoke:SetConfiguration" && len(ev.Args) == 2 && strings.HasPrefix(ev.Args[0].String(), "lint.GlobalRegistry") && ev.Args[1].String() == "extract:0(lint.NewConfigFromFile("+cliFlagPath(c, "config")+"))" {
 				cfgSet = true
 			}
 			if ev.Name == "invoke:Filter" {
@@ -485,13 +486,13 @@ func c15SetLints(c *Ctx, r *Report) {
 				if !k.set[5] {
 					wantF := map[string]string{"NameFilter": "", "IncludeNames": "", "ExcludeNames": ""}
 					if k.set[0] {
-						wantF["NameFilter"] = "extract:0(regexp.Compile(cmd/zlint.nameFilter))"
+						wantF["NameFilter"] = "extract:0(regexp.Compile(" + cliFlagPath(c, "nameFilter") + "))"
 					}
 					if k.set[1] {
-						wantF["IncludeNames"] = "cmd/zlint.trimmedList(cmd/zlint.includeNames)"
+						wantF["IncludeNames"] = "cmd/zlint.trimmedList(" + cliFlagPath(c, "includeNames") + ")"
 					}
 					if k.set[2] {
-						wantF["ExcludeNames"] = "cmd/zlint.trimmedList(cmd/zlint.excludeNames)"
+						wantF["ExcludeNames"] = "cmd/zlint.trimmedList(" + cliFlagPath(c, "excludeNames") + ")"
 					}
 					for f, w := range wantF {
 						got := field(f)
@@ -504,10 +505,10 @@ func c15SetLints(c *Ctx, r *Report) {
 				srcCalls := calls["(*lint.SourceList).FromString"]
 				wantSrc := map[string]string{}
 				if k.set[3] {
-					wantSrc["IncludeSources"] = "cmd/zlint.includeSources"
+					wantSrc["IncludeSources"] = cliFlagPath(c, "includeSources")
 				}
 				if k.set[4] {
-					wantSrc["ExcludeSources"] = "cmd/zlint.excludeSources"
+					wantSrc["ExcludeSources"] = cliFlagPath(c, "excludeSources")
 				}
 				gotSrc := map[string]string{}
 				for _, ev := range srcCalls {
@@ -541,7 +542,7 @@ func c15SetLints(c *Ctx, r *Report) {
 				}
 				if k.set[5] {
 					ap := calls["(*lint.FilterOptions).AddProfile"]
-					if len(ap) != 1 || ap[0].Args[1].String() != "extract:0(lint.GetProfile(cmd/zlint.profile))" {
+					if len(ap) != 1 || ap[0].Args[1].String() != "extract:0(lint.GetProfile("+cliFlagPath(c, "profile")+"))" {
 						bad = "-profile is not added to the filter options via AddProfile(GetProfile(profile))"
 					}
 				} else if len(calls["(*lint.FilterOptions).AddProfile"]) != 0 {
@@ -554,7 +555,7 @@ func c15SetLints(c *Ctx, r *Report) {
 			for _, f := range flags {
 				found := false
 				for mk, v := range o.Mem {
-					if (strings.Contains(mk, "<varargs>[") || strings.Contains(mk, "<slicelit>[")) && v.String() == "cmd/zlint."+f {
+					if (strings.Contains(mk, "<varargs>[") || strings.Contains(mk, "<slicelit>[")) && v.String() == cliFlagPath(c, f) {
 						found = true
 					}
 				}
@@ -842,7 +843,7 @@ func c15Summary(c *Ctx, r *Report) {
 	// OutputSummary: fresh table, threshold Pass, same result set
 	os := c.Func("formattedoutput", "OutputSummary")
 	ok := false
-	allInstrs(os, func(in ssa.Instruction) {
+	allInstrsDeep(os, func(in ssa.Instruction) {
 		call, isCall := in.(ssa.CallInstruction)
 		if !isCall || call.Common().StaticCallee() != fn {
 			return
@@ -860,7 +861,7 @@ func c15Summary(c *Ctx, r *Report) {
 					thrOK = true
 				}
 			case res:
-				resOK = a == ssa.Value(os.Params[0])
+				resOK = a == ssa.Value(os.Params[0]) || apath(a) == os.Params[0].Name()
 			}
 		}
 		if fresh && thrOK && resOK {
@@ -870,7 +871,7 @@ func c15Summary(c *Ctx, r *Report) {
 	r.Check(ok, "summary-counts", "OutputSummary", os.Pos(), "new table per call, threshold Pass, the given result set", "OutputSummary does not build a fresh table from the given result set with threshold Pass (counts would be shared between tables or computed from other results)")
 	// printed count = resultCount[level]
 	printed := 0
-	allInstrs(os, func(in ssa.Instruction) {
+	allInstrsDeep(os, func(in ssa.Instruction) {
 		call, ok := in.(*ssa.Call)
 		if !ok || staticCalleeName(&call.Call) != "strconv.Itoa" {
 			return
@@ -981,4 +982,46 @@ func nonEmptyStringPred(f *ssa.Function) bool {
 		}
 	}
 	return true
+}
+
+// cliFlagPaths: flag name → printed access path of the variable the flag is
+// bound to (flag.StringVar(&x, "name", …) / BoolVar / IntVar in package
+// cmd/zlint's init). The rules speak about flags by NAME; where the value lives
+// (a package variable per flag, a field of one options struct) is free.
+var cliFlagMemo map[string]string
+
+func cliFlagPath(c *Ctx, name string) string {
+	if cliFlagMemo == nil {
+		cliFlagMemo = map[string]string{}
+		if p := c.SSAPkg("cmd/zlint"); p != nil {
+			for _, m := range p.Members {
+				f, ok := m.(*ssa.Function)
+				if !ok {
+					continue
+				}
+				var fs []*ssa.Function
+				fs = append(fs, f)
+				fs = append(fs, f.AnonFuncs...)
+				for _, g := range fs {
+					allInstrsDeep(g, func(in ssa.Instruction) {
+						call, ok := in.(ssa.CallInstruction)
+						if !ok {
+							return
+						}
+						n := staticCalleeName(call.Common())
+						if !strings.HasPrefix(n, "flag.") || !strings.HasSuffix(n, "Var") || len(call.Common().Args) < 2 {
+							return
+						}
+						if k, isK := call.Common().Args[1].(*ssa.Const); isK && k.Value != nil && k.Value.Kind() == constant.String {
+							cliFlagMemo[constant.StringVal(k.Value)] = strings.TrimPrefix(apath(call.Common().Args[0]), "&")
+						}
+					})
+				}
+			}
+		}
+	}
+	if p, ok := cliFlagMemo[name]; ok {
+		return p
+	}
+	return "cmd/zlint." + name
 }
